@@ -839,6 +839,26 @@ type evaluator struct {
 	memo map[*Term]uint64
 }
 
+// defined reports whether every variable of t has a value in the model (a
+// variable created after the model was produced evaluates to 0 by default,
+// which need not satisfy the path condition).
+func (e *evaluator) defined(t *Term) bool {
+	seen := map[*Term]bool{}
+	var walk func(t *Term) bool
+	walk = func(t *Term) bool {
+		if t == nil || seen[t] {
+			return true
+		}
+		seen[t] = true
+		if t.op == OpVar {
+			_, ok := e.m[t.name]
+			return ok
+		}
+		return walk(t.a) && walk(t.b) && walk(t.c)
+	}
+	return walk(t)
+}
+
 func newEvaluator(m Model) *evaluator {
 	return &evaluator{m: m, memo: make(map[*Term]uint64)}
 }
